@@ -498,6 +498,24 @@ where
             }
         }
         if !b.can_encode() { return Ok(()); }
+        if ctx.on("C09") {
+            let lo = *b.support.iter().min().unwrap();
+            let hi = *b.support.iter().max().unwrap();
+            let s0 = b.support[i % b.support.len()];
+            for cand in [lo - 1, hi + 1, s0 + (1i64 << 8), s0 + (1i64 << 16), s0 + (1i64 << 32), s0 + (1i64 << b.p.min(62))] {
+                if b.in_support(cand) { continue; }
+                let mut c2 = enc.clone();
+                let pre2 = c2.clone().into_remainders();
+                let res = c2.enc(b, cand);
+                ctx.stats.hit("fault-badsym-enumerated");
+                if !res.is_impossible() {
+                    viol!(ctx, "C09", "chain-impossible-symbol-not-rejected", "sym={} model={:?} -> {:?} (enumerated at re-encode position {})", cand, t.models[mi], res, i);
+                }
+                if c2.into_remainders() != pre2 {
+                    viol!(ctx, "C09", "chain-changed-by-rejected-symbol", "sym={}", cand);
+                }
+            }
+        }
         let pre = enc.clone();
         match enc.enc(b, run.symbols[i]) {
             EncRes::Ok => ctx.stats.hit("op-enc"),
